@@ -16,6 +16,7 @@ package main
 
 import (
 	"fmt"
+	"strconv"
 	"strings"
 )
 
@@ -44,6 +45,13 @@ var lexPool = concatLex(
 	lexItems("optional", "0XE", "0Xfe", "0B11", "5.", ".5", "1e3", "1E3", "2e0", "1.5e2"),
 	lexItems("var", "x", "[0]", "[y]", "[x]", "e", "E", "b"),
 	lexItems("compound", "-2", "-x", "(x)", "abs(x)", "-0xe", "!x", "(0x1e)"),
+	// spellings of unsettled reading (the reference does not parse them: such a
+	// formula is only demanded not to crash) that strconv-style parsers read as
+	// numbers: words that also look like variable names, hexadecimal floats,
+	// digit separators. Judged by substitution only (lexSubst): when the tree
+	// reads the text as a number when a variable is bound to it and compiles it
+	// as a formula token, the token must behave as that number.
+	lexItems("special", "inf", "Inf", "INF", "infinity", "nan", "NaN", "0x1p4", "0x1P1", "1_000"),
 )
 
 // lexPartners: the operand on the other side of the operator (quick tier; the
@@ -55,6 +63,7 @@ var lexPartners = concatLex(
 	lexItems("optional", ".5", "1e3"),
 	lexItems("var", "x", "[0]", "e"),
 	lexItems("compound", "-2", "(x)", "abs(x)"),
+	lexItems("special", "inf", "NaN"),
 )
 
 var lexChainQuick = []string{"0xe", "0x1E", "0b1", "1.5", "x", "e", "2"}
@@ -178,6 +187,9 @@ func (c *checker) lexFormula(text, label, root string) formulaResult {
 func (c *checker) lexSubst(a lexItem, op string, b lexItem, st [2]string, orig string, res *formulaResult) {
 	w := c.w
 	lit := func(it lexItem) (float64, bool) {
+		if it.cls == "special" {
+			return boundValue(it.text)
+		}
 		toks := refTokenize(it.text)
 		if len(toks) == 1 && toks[0].k == tNum {
 			return toks[0].num, true
@@ -186,6 +198,9 @@ func (c *checker) lexSubst(a lexItem, op string, b lexItem, st [2]string, orig s
 	}
 	va, oka := lit(a)
 	vb, okb := lit(b)
+	// a formula with a spelling of unsettled reading may look a name up that the
+	// harness did not bind (that is what is being judged): evaluated leniently
+	special := a.cls == "special" || b.cls == "special"
 	try := func(ra, rb bool) {
 		extra := map[string]float64{}
 		at, bt := a.text, b.text
@@ -196,6 +211,17 @@ func (c *checker) lexSubst(a lexItem, op string, b lexItem, st [2]string, orig s
 			bt, extra["c1"] = "[c1]", vb
 		}
 		other := at + st[0] + op + st[1] + bt
+		if special {
+			w.SetCase(func() any {
+				cs := substCase(orig, other, extra, -1)
+				cs.Dir, cs.Lenient = dirUnsettled, true
+				return cs
+			})
+			c.checkSubstEx(orig, res, other, extra, -1, dirUnsettled, false)
+			w.Add("substitution_cases", 1)
+			w.Add("substitution_cases_unsettled_spelling", 1)
+			return
+		}
 		w.SetCase(func() any { return Case{Kind: "subst", Formula: orig, Other: other, Extra: extra, Bind: -1} })
 		c.checkSubst(orig, res, other, extra, -1, "constant-to-variable")
 		w.Add("substitution_cases", 1)
@@ -211,6 +237,36 @@ func (c *checker) lexSubst(a lexItem, op string, b lexItem, st [2]string, orig s
 	}
 }
 
+const dirUnsettled = "constant-to-variable/unsettled-spelling"
+
+var boundValueMemo = map[string]struct {
+	v  float64
+	ok bool
+}{}
+
+// boundValue: the number the tree under test reads the text as when a variable
+// is bound to it (`{! [0]}` on that text); ok=false when it gives the error
+// marker. The reference has no opinion on these spellings.
+func boundValue(text string) (float64, bool) {
+	if m, ok := boundValueMemo[text]; ok {
+		return m.v, m.ok
+	}
+	var v float64
+	ok := false
+	if ct := compileTemplate("{! [0]}", true); ct.err == nil && ct.panicked == "" {
+		if out, pk := evalTemplate(ct.kb, bindContext([]string{text, ""})); pk == "" && out != errorMarker {
+			if f, err := strconv.ParseFloat(out, 64); err == nil {
+				v, ok = f, true
+			}
+		}
+	}
+	boundValueMemo[text] = struct {
+		v  float64
+		ok bool
+	}{v, ok}
+	return v, ok
+}
+
 func lexRule(quick bool) string {
 	chain := lexChainThorough
 	pairs := "every ordered pair of the pool"
@@ -218,6 +274,6 @@ func lexRule(quick bool) string {
 		chain = lexChainQuick
 		pairs = "every literal of the pool on either side of every partner in {" + lexTexts(lexPartners) + "}"
 	}
-	return fmt.Sprintf("lexical family: operands {%s} (variables e E b bound to 7 -4 13): %s around each of the 17 binary operators with the four placements of blanks (a op b, aopb, a opb, aop b), and spaced/compact inside each of {%s}; at the top level (spaced/compact) also through `{! f}` and `{! \"f\"}` templates and with each literal alone and both replaced by a variable bound to the value the reference's own digit parser gives; chains a op1 b op2 c, spaced and compact, over all 17x17 operator pairs and all operands in {%s}",
+	return fmt.Sprintf("lexical family: operands {%s} (variables e E b bound to 7 -4 13): %s around each of the 17 binary operators with the four placements of blanks (a op b, aopb, a opb, aop b), and spaced/compact inside each of {%s}; at the top level (spaced/compact) also through `{! f}` and `{! \"f\"}` templates and with each literal alone and both replaced by a variable bound to the value the reference's own digit parser gives (the operands inf Inf INF infinity nan NaN 0x1p4 0x1P1 1_000, whose reading the statement does not settle and the reference does not parse: bound to the value the tree itself reads that text as when a variable is bound to it; compared only when that is a number and the formula with the token compiles; signature C19/subst/constant-to-variable/unsettled-spelling/value-differs); chains a op1 b op2 c, spaced and compact, over all 17x17 operator pairs and all operands in {%s}",
 		lexTexts(lexPool), pairs, strings.Join(lexWrappers, " "), strings.Join(chain, " "))
 }
